@@ -1,1 +1,1152 @@
-fn main() {}
+//! C03 — event signatures survive redaction; required signers and hash status are enforced.
+//!
+//! The signature scheme (ed25519-dalek) is external to ruma: every request that needs it carries an
+//! ORACLE TABLE produced by the real `Ed25519KeyPair::sign` / `verify_canonical_json_bytes`, so the
+//! Lean model replays ruma's glue with exactly the signatures / verdicts the real scheme gave.
+//! `Ipv6Addr::from_str` (used by server-name validation) is external too: `X` lists the bracket
+//! contents it accepts.
+//!
+//!   x6     := X <n> (<str:s>)*
+//!   gtable := G <n> (<seed:h> <msg:h> <sig:h>)*
+//!   vtable := V <msg:h> <n> (<pk:h> <sig:h> <t|f>)*
+//!   keymap := K <n> (<entity:s> <m> (<keyid:s> <pk:h>)*)*
+//!
+//! Requests and answers (errors are one class `err`):
+//!   c03.sigrules <v>                                               → `<t|f> <t|f>`        (SPEC op)
+//!   c03.servers <v> <x6> <event>                                   → ok <n> <server:s>* | err
+//!       behavioural: the servers whose signature `verify_event` really demands
+//!   c03.sign <v> <gtable> <entity:s> <version:s> <seed:h> <event>  → ok <event'> | err <event'>
+//!   c03.verify <v> <tag> <x6> <vtable> <keymap> <event>            → all | signatures | err
+//!       <tag> states what the property requires of this case by construction (only `run` reads it).
+use std::{collections::BTreeMap, net::Ipv6Addr};
+
+use h_lib::{
+    cj::{cj_obj_toks, cj_parse_obj, gen_canonical_value},
+    h_util::{self, hex, unhex},
+    stok, version_id, Outcome, Req, Rng,
+};
+use ruma_common::{
+    canonical_json::redact,
+    room_version_rules::RoomVersionRules,
+    serde::{base64::Standard, Base64},
+    CanonicalJsonObject, CanonicalJsonValue, SigningKeyAlgorithm,
+};
+use ruma_signatures::{
+    canonical_json, content_hash, hash_and_sign_event, sign_json, verify_canonical_json_bytes,
+    verify_event, Ed25519KeyPair, KeyPair, PublicKeyMap, PublicKeySet, Verified,
+};
+use serde_json::{json, Value};
+
+type Obj = CanonicalJsonObject;
+type Val = CanonicalJsonValue;
+
+fn rules(v: u32) -> RoomVersionRules {
+    version_id(v).rules().expect("known version has rules")
+}
+
+fn to_obj(v: Value) -> Obj {
+    match Val::try_from(v).expect("canonical") {
+        Val::Object(o) => o,
+        _ => panic!("not an object"),
+    }
+}
+
+fn to_val(v: Value) -> Val {
+    Val::try_from(v).expect("canonical")
+}
+
+/// PKCS#8 v1 document (RFC 8410 §7) for a 32-byte Ed25519 seed.
+fn pkcs8_v1(seed: &[u8]) -> Vec<u8> {
+    let mut d = vec![
+        0x30, 0x2e, 0x02, 0x01, 0x00, 0x30, 0x05, 0x06, 0x03, 0x2b, 0x65, 0x70, 0x04, 0x22, 0x04, 0x20,
+    ];
+    d.extend_from_slice(seed);
+    d
+}
+
+fn key_pair(seed: &[u8], version: &str) -> Ed25519KeyPair {
+    Ed25519KeyPair::from_der(&pkcs8_v1(seed), version.to_owned()).expect("PKCS#8 v1 document for a 32-byte seed")
+}
+
+fn real_verify_bytes(pk: &[u8], sig: &[u8], msg: &[u8]) -> bool {
+    verify_canonical_json_bytes(&SigningKeyAlgorithm::Ed25519, pk, sig, msg).is_ok()
+}
+
+fn htok(b: &[u8]) -> String {
+    format!("h{}", hex(b))
+}
+
+fn fnv(s: &str) -> u64 {
+    let mut h: u64 = 0xcbf29ce484222325;
+    for b in s.bytes() {
+        h ^= b as u64;
+        h = h.wrapping_mul(0x100000001b3);
+    }
+    h
+}
+
+// ---------------------------------------------------------------------------------------------
+// external-function oracles
+
+/// The part after the first `:` (the spec's "server name" of a user ID / v1 event ID).
+fn after_colon(s: &str) -> Option<&str> {
+    s.find(':').map(|i| &s[i + 1..])
+}
+
+fn id_strings(ev: &Obj) -> Vec<String> {
+    let mut v = Vec::new();
+    for k in ["sender", "event_id"] {
+        if let Some(Val::String(s)) = ev.get(k) {
+            v.push(s.clone());
+        }
+    }
+    if let Some(Val::Object(c)) = ev.get("content") {
+        if let Some(Val::String(s)) = c.get("join_authorised_via_users_server") {
+            v.push(s.clone());
+        }
+    }
+    v
+}
+
+/// `X` table: bracket contents of the server parts that `Ipv6Addr::from_str` accepts.
+fn x6_toks(ev: &Obj) -> String {
+    let mut acc: Vec<String> = Vec::new();
+    for id in id_strings(ev) {
+        if let Some(srv) = after_colon(&id) {
+            if let Some(rest) = srv.strip_prefix('[') {
+                if let Some(end) = rest.find(']') {
+                    let inner = &rest[..end];
+                    if inner.parse::<Ipv6Addr>().is_ok() && !acc.iter().any(|a| a == inner) {
+                        acc.push(inner.to_owned());
+                    }
+                }
+            }
+        }
+    }
+    let mut s = format!("X {}", acc.len());
+    for a in acc {
+        s.push(' ');
+        s.push_str(&stok(&a));
+    }
+    s
+}
+
+fn vtable_toks(keys: &PublicKeyMap, ev: &Obj, rules: &RoomVersionRules) -> String {
+    // every (public key, signature) pair `verify_event` can ask the scheme about; the message is the
+    // canonical JSON of the redacted event (computed with ruma's public `redact` + `canonical_json`)
+    let msg = match redact(ev.clone(), &rules.redaction, None).ok().and_then(|r| canonical_json(&r).ok()) {
+        Some(m) => m.into_bytes(),
+        None => return "V h 0".to_owned(),
+    };
+    let mut rows: Vec<(Vec<u8>, Vec<u8>, bool)> = Vec::new();
+    if let Some(Val::Object(sigs)) = ev.get("signatures") {
+        for (entity, set) in sigs {
+            let (Val::Object(set), Some(pks)) = (set, keys.get(entity)) else { continue };
+            for (kid, sig) in set {
+                let (Some(pk), Val::String(s)) = (pks.get(kid), sig) else { continue };
+                if let Ok(raw) = Base64::<Standard>::parse(s) {
+                    let row = (pk.as_bytes().to_vec(), raw.as_bytes().to_vec());
+                    if !rows.iter().any(|(p, s, _)| *p == row.0 && *s == row.1) {
+                        let ok = real_verify_bytes(&row.0, &row.1, &msg);
+                        rows.push((row.0, row.1, ok));
+                    }
+                }
+            }
+        }
+    }
+    let mut s = format!("V {} {}", htok(&msg), rows.len());
+    for (pk, sig, ok) in rows {
+        s.push_str(&format!(" {} {} {}", htok(&pk), htok(&sig), if ok { "t" } else { "f" }));
+    }
+    s
+}
+
+fn keymap_toks(keys: &PublicKeyMap) -> String {
+    let mut s = format!("K {}", keys.len());
+    for (entity, set) in keys {
+        s.push_str(&format!(" {} {}", stok(entity), set.len()));
+        for (kid, pk) in set {
+            s.push_str(&format!(" {} {}", stok(kid), htok(pk.as_bytes())));
+        }
+    }
+    s
+}
+
+/// The message `hash_and_sign_event` must sign for `ev`, from ruma's public building blocks.
+fn sign_message(ev: &Obj, rules: &RoomVersionRules) -> Option<Vec<u8>> {
+    let hash = content_hash(ev).ok()?;
+    let mut o = ev.clone();
+    match o.entry("hashes".to_owned()).or_insert_with(|| Val::Object(BTreeMap::new())) {
+        Val::Object(h) => {
+            h.insert("sha256".into(), Val::String(hash.encode()));
+        }
+        _ => return None,
+    }
+    let red = redact(o, &rules.redaction, None).ok()?;
+    Some(canonical_json(&red).ok()?.into_bytes())
+}
+
+fn gtable_toks(seed: &[u8], ev: &Obj, rules: &RoomVersionRules) -> String {
+    match sign_message(ev, rules) {
+        Some(msg) => {
+            let sig = key_pair(seed, "t").sign(&msg);
+            format!("G 1 {} {} {}", htok(seed), htok(&msg), htok(sig.as_bytes()))
+        }
+        None => "G 0".to_owned(),
+    }
+}
+
+// ---------------------------------------------------------------------------------------------
+// request parsing
+
+struct Cur<'a> {
+    toks: &'a [&'a str],
+    i: usize,
+}
+
+impl<'a> Cur<'a> {
+    fn word(&mut self) -> Option<&'a str> {
+        let w = self.toks.get(self.i)?;
+        self.i += 1;
+        Some(*w)
+    }
+    fn lit(&mut self, w: &str) -> Option<()> {
+        (self.word()? == w).then_some(())
+    }
+    fn num(&mut self) -> Option<usize> {
+        self.word()?.parse().ok()
+    }
+    fn bytes(&mut self) -> Option<Vec<u8>> {
+        unhex(self.word()?.strip_prefix('h')?)
+    }
+    fn string(&mut self) -> Option<String> {
+        h_util::unhex_str(self.word()?.strip_prefix('s')?)
+    }
+    fn version(&mut self) -> Option<u32> {
+        let v: u32 = self.word()?.parse().ok()?;
+        (1..=11).contains(&v).then_some(v)
+    }
+    fn x6(&mut self) -> Option<Vec<String>> {
+        self.lit("X")?;
+        let n = self.num()?;
+        (0..n).map(|_| self.string()).collect()
+    }
+    fn gtable(&mut self) -> Option<Vec<(Vec<u8>, Vec<u8>, Vec<u8>)>> {
+        self.lit("G")?;
+        let n = self.num()?;
+        (0..n).map(|_| Some((self.bytes()?, self.bytes()?, self.bytes()?))).collect()
+    }
+    fn vtable(&mut self) -> Option<(Vec<u8>, Vec<(Vec<u8>, Vec<u8>, bool)>)> {
+        self.lit("V")?;
+        let msg = self.bytes()?;
+        let n = self.num()?;
+        let rows = (0..n)
+            .map(|_| {
+                let pk = self.bytes()?;
+                let sig = self.bytes()?;
+                let ok = match self.word()? {
+                    "t" => true,
+                    "f" => false,
+                    _ => return None,
+                };
+                Some((pk, sig, ok))
+            })
+            .collect::<Option<Vec<_>>>()?;
+        Some((msg, rows))
+    }
+    fn keymap(&mut self) -> Option<PublicKeyMap> {
+        self.lit("K")?;
+        let n = self.num()?;
+        let mut m = PublicKeyMap::new();
+        for _ in 0..n {
+            let entity = self.string()?;
+            let k = self.num()?;
+            let mut set = PublicKeySet::new();
+            for _ in 0..k {
+                let kid = self.string()?;
+                set.insert(kid, Base64::new(self.bytes()?));
+            }
+            m.insert(entity, set);
+        }
+        Some(m)
+    }
+    fn obj_to_end(&mut self) -> Option<Obj> {
+        let mut it = self.toks[self.i..].iter();
+        let o = cj_parse_obj(&mut it)?;
+        it.next().is_none().then_some(o)
+    }
+}
+
+// ---------------------------------------------------------------------------------------------
+// the specification's required-server set, evaluated independently of ruma-signatures
+
+/// `Some(set)` for events on which the clauses can be evaluated textually; `None` otherwise.
+fn spec_servers(v: u32, ev: &Obj) -> Option<Vec<String>> {
+    let mut out: Vec<String> = Vec::new();
+    let ty = match ev.get("type") {
+        Some(Val::String(t)) => t.as_str(),
+        _ => return None,
+    };
+    let content = match ev.get("content") {
+        Some(Val::Object(c)) => Some(c),
+        _ => None,
+    };
+    let mut third_party = false;
+    if ty == "m.room.member" {
+        let c = content?;
+        match c.get("membership") {
+            Some(Val::String(m)) => {
+                if m == "invite" {
+                    match c.get("third_party_invite") {
+                        Some(Val::Object(_)) => third_party = true,
+                        None => {}
+                        _ => return None,
+                    }
+                }
+            }
+            _ => return None,
+        }
+    }
+    if !third_party {
+        match ev.get("sender") {
+            Some(Val::String(s)) => out.push(after_colon(s)?.to_owned()),
+            _ => return None,
+        }
+    }
+    if v <= 2 {
+        match ev.get("event_id") {
+            Some(Val::String(s)) => out.push(after_colon(s)?.to_owned()),
+            _ => return None,
+        }
+    }
+    if v >= 8 {
+        if let Some(a) = content.and_then(|c| c.get("join_authorised_via_users_server")) {
+            match a {
+                Val::String(s) => out.push(after_colon(s)?.to_owned()),
+                _ => return None,
+            }
+        }
+    }
+    out.sort();
+    out.dedup();
+    Some(out)
+}
+
+// ---------------------------------------------------------------------------------------------
+// running the implementation
+
+fn seed_for(entity: &str) -> Vec<u8> {
+    let mut r = Rng::new(fnv(entity));
+    (0..32).map(|_| (r.next() & 0xff) as u8).collect()
+}
+
+/// Behavioural extraction of `servers_to_check_signatures` (a private function): sign the event
+/// with every candidate server, check that the fully signed event verifies, then drop one
+/// candidate's signature at a time — the servers whose absence makes `verify_event` fail are the
+/// required ones.
+fn run_servers(v: u32, ev: Obj) -> Outcome {
+    let rules = rules(v);
+    let mut t3 = Vec::new();
+    let mut cands: Vec<String> = id_strings(&ev).iter().filter_map(|s| after_colon(s).map(str::to_owned)).collect();
+    cands.push("unrelated.example".to_owned());
+    cands.sort();
+    cands.dedup();
+    let mut signed = ev.clone();
+    let mut keys = PublicKeyMap::new();
+    for c in &cands {
+        let kp = key_pair(&seed_for(c), "1");
+        if hash_and_sign_event(c, &kp, &mut signed, &rules.redaction).is_err() {
+            return Outcome { imp: "err".into(), t3 };
+        }
+        let mut set = PublicKeySet::new();
+        set.insert("ed25519:1".to_owned(), Base64::new(kp.public_key().to_vec()));
+        keys.insert(c.clone(), set);
+    }
+    match verify_event(&keys, &signed, &rules) {
+        Ok(Verified::All) => {}
+        Ok(Verified::Signatures) => {
+            t3.push("an event hashed and signed by every candidate server verifies as `signatures` only".into());
+        }
+        Err(_) => return Outcome { imp: "err".into(), t3 },
+    }
+    let mut required = Vec::new();
+    for c in &cands {
+        let mut e2 = signed.clone();
+        if let Some(Val::Object(s)) = e2.get_mut("signatures") {
+            s.remove(c);
+        }
+        if verify_event(&keys, &e2, &rules).is_err() {
+            required.push(c.clone());
+        }
+    }
+    if let Some(spec) = spec_servers(v, &ev) {
+        if spec != required {
+            t3.push(format!(
+                "servers whose signature verify_event demands {required:?} differ from the specification's {spec:?} \
+                 (sender's server unless 3pid invite; event-id server iff v<=2; authorising server iff v>=8)"
+            ));
+        }
+    }
+    let mut imp = format!("ok {}", required.len());
+    for r in required {
+        imp.push(' ');
+        imp.push_str(&stok(&r));
+    }
+    Outcome { imp, t3 }
+}
+
+fn run_sign(v: u32, entity: &str, version: &str, seed: &[u8], ev: Obj) -> Outcome {
+    let rules = rules(v);
+    let mut t3 = Vec::new();
+    let kp = key_pair(seed, version);
+    let mut o = ev.clone();
+    let res = hash_and_sign_event(entity, &kp, &mut o, &rules.redaction);
+    let imp = format!("{} {}", if res.is_ok() { "ok" } else { "err" }, cj_obj_toks(&o));
+    if res.is_ok() {
+        // sign → verify = All whenever this signer covers every server the version demands
+        let mut keys = PublicKeyMap::new();
+        let mut set = PublicKeySet::new();
+        set.insert(format!("ed25519:{version}"), Base64::new(kp.public_key().to_vec()));
+        keys.insert(entity.to_owned(), set);
+        let fresh = !ev.contains_key("signatures");
+        if fresh {
+            if let Some(spec) = spec_servers(v, &o) {
+                if spec.iter().all(|s| s == entity) {
+                    match verify_event(&keys, &o, &rules) {
+                        Ok(Verified::All) => {}
+                        Ok(Verified::Signatures) => t3.push("sign then verify: content hash reported invalid".into()),
+                        Err(e) => {
+                            // identifiers the textual oracle accepts may still be rejected by the parser
+                            let parse = format!("{e:?}");
+                            if !(parse.contains("UserId") || parse.contains("EventId") || parse.contains("ServerName")) {
+                                t3.push(format!("sign then verify failed: {e:?}"));
+                            }
+                        }
+                    }
+                }
+            }
+        }
+        // the stored hash is the content hash; hash and signatures of the input are otherwise kept
+        match content_hash(&o) {
+            Ok(h) => {
+                let stored = match o.get("hashes") {
+                    Some(Val::Object(hs)) => hs.get("sha256").cloned(),
+                    _ => None,
+                };
+                if stored != Some(Val::String(h.encode())) {
+                    t3.push("hashes.sha256 after hash_and_sign_event is not the content hash".into());
+                }
+            }
+            Err(_) => t3.push("content hash of a signed event fails".into()),
+        }
+        for (k, val) in &ev {
+            if k != "hashes" && k != "signatures" && o.get(k) != Some(val) {
+                t3.push(format!("hash_and_sign_event changed field {k:?}"));
+            }
+        }
+    }
+    Outcome { imp, t3 }
+}
+
+fn verdict(r: &Result<Verified, ruma_signatures::Error>) -> &'static str {
+    match r {
+        Ok(Verified::All) => "all",
+        Ok(Verified::Signatures) => "signatures",
+        Err(_) => "err",
+    }
+}
+
+fn run_verify(v: u32, tag: &str, keys: &PublicKeyMap, ev: Obj) -> Outcome {
+    let rules = rules(v);
+    let mut t3 = Vec::new();
+    let imp = verdict(&verify_event(keys, &ev, &rules));
+    let want: &[&str] = match tag {
+        "signed" | "unsigned-mut" | "sig-extra-removed" => &["all"],
+        "redacted" => &["all", "signatures"],
+        "strip-mut" => &["signatures"],
+        "kept-mut" | "sig-required-removed" | "sig-required-corrupt" | "key-missing" | "key-wrong" => &["err"],
+        _ => &["all", "signatures", "err"],
+    };
+    if !want.contains(&imp) {
+        t3.push(format!("case built as `{tag}` must verify as {want:?}, verify_event says `{imp}`"));
+    }
+    // `unsigned` never matters
+    let mut e2 = ev.clone();
+    e2.insert("unsigned".into(), to_val(json!({"age": 1234, "x": [1, {"y": null}]})));
+    let r2 = verdict(&verify_event(keys, &e2, &rules));
+    let mut e3 = ev.clone();
+    e3.remove("unsigned");
+    let r3 = verdict(&verify_event(keys, &e3, &rules));
+    if r2 != imp || r3 != imp {
+        t3.push(format!("verify_event depends on `unsigned`: `{imp}` vs `{r2}` (replaced) / `{r3}` (removed)"));
+    }
+    Outcome { imp: imp.to_owned(), t3 }
+}
+
+fn tf(b: bool) -> &'static str {
+    if b {
+        "t"
+    } else {
+        "f"
+    }
+}
+
+/// A table whose entries do not reproduce on the real scheme is a harness defect: `bad-op`.
+fn tables_ok_g(g: &[(Vec<u8>, Vec<u8>, Vec<u8>)]) -> bool {
+    g.iter().all(|(seed, msg, sig)| seed.len() == 32 && key_pair(seed, "t").sign(msg).as_bytes() == &sig[..])
+}
+
+pub fn run(req: &str) -> Outcome {
+    let toks: Vec<&str> = req.split(' ').collect();
+    run_toks(&toks).unwrap_or_else(Outcome::bad)
+}
+
+fn run_toks(toks: &[&str]) -> Option<Outcome> {
+    let mut c = Cur { toks, i: 1 };
+    match *toks.first()? {
+        "c03.sigrules" => {
+            let v = c.version()?;
+            let s = rules(v).signatures;
+            Some(Outcome::new(format!(
+                "{} {}",
+                tf(s.check_event_id_server),
+                tf(s.check_join_authorised_via_users_server)
+            )))
+        }
+        "c03.servers" => {
+            let v = c.version()?;
+            let _x6 = c.x6()?;
+            let ev = c.obj_to_end()?;
+            Some(run_servers(v, ev))
+        }
+        "c03.sign" => {
+            let v = c.version()?;
+            let g = c.gtable()?;
+            if !tables_ok_g(&g) {
+                return None;
+            }
+            let entity = c.string()?;
+            let version = c.string()?;
+            let seed = c.bytes()?;
+            if seed.len() != 32 {
+                return None;
+            }
+            let ev = c.obj_to_end()?;
+            Some(run_sign(v, &entity, &version, &seed, ev))
+        }
+        "c03.verify" => {
+            let v = c.version()?;
+            let tag = c.word()?;
+            let _x6 = c.x6()?;
+            let (msg, rows) = c.vtable()?;
+            if !rows.iter().all(|(pk, sig, ok)| real_verify_bytes(pk, sig, &msg) == *ok) {
+                return None;
+            }
+            let keys = c.keymap()?;
+            let ev = c.obj_to_end()?;
+            Some(run_verify(v, tag, &keys, ev))
+        }
+        _ => None,
+    }
+}
+
+/// T1: `signatures`, `redaction` and `event_id_format` rules reached through `RoomVersionId::rules()`.
+fn extract() -> String {
+    let mut s = String::new();
+    s.push_str("-- GENERATED by `h-c03 c03 extract` from the running implementation. Do not edit.\n");
+    s.push_str("import RumaModel.Model.EventSign\nnamespace Ruma.Generated.C03\nopen Ruma.Redact Ruma.EventSign\n\n");
+    s.push_str("/-- `RoomVersionId::V<n>.rules().signatures` for n = 1..11:\n");
+    s.push_str("⟨check_event_id_server, check_join_authorised_via_users_server⟩. -/\n");
+    s.push_str("def signaturesTable : List (Nat × SigRules) := [\n");
+    for v in 1..=11u32 {
+        let r = rules(v).signatures;
+        s.push_str(&format!(
+            "  ({v}, ⟨{}, {}⟩){}\n",
+            r.check_event_id_server,
+            r.check_join_authorised_via_users_server,
+            if v == 11 { "" } else { "," }
+        ));
+    }
+    s.push_str("]\n\n/-- `RoomVersionId::V<n>.rules().redaction` for n = 1..11, read field by field. -/\n");
+    s.push_str("def redactionTable : List (Nat × Rules) := [\n");
+    for v in 1..=11u32 {
+        let r = rules(v).redaction;
+        s.push_str(&format!(
+            "  ({v}, ⟨{}, {}, {}, {}, {}, {}, {}, {}⟩){}\n",
+            r.keep_room_aliases_aliases,
+            r.keep_room_join_rules_allow,
+            r.keep_room_member_join_authorised_via_users_server,
+            r.keep_origin_membership_prev_state,
+            r.keep_room_create_content,
+            r.keep_room_redaction_redacts,
+            r.keep_room_power_levels_invite,
+            r.keep_room_member_third_party_invite_signed,
+            if v == 11 { "" } else { "," }
+        ));
+    }
+    s.push_str("]\n\nend Ruma.Generated.C03\n");
+    s
+}
+
+// ---------------------------------------------------------------------------------------------
+// generators
+
+const TYPES: &[&str] = &[
+    "m.room.member",
+    "m.room.member",
+    "m.room.member",
+    "m.room.create",
+    "m.room.join_rules",
+    "m.room.power_levels",
+    "m.room.history_visibility",
+    "m.room.redaction",
+    "m.room.aliases",
+    "m.room.server_acl",
+    "m.room.message",
+    "m.room.third_party_invite",
+    "x.custom",
+];
+
+const SERVERS: &[&str] = &[
+    "a.example", "b.example", "c.example:8448", "1.2.3.4", "1.2.3.4:80", "[::1]", "[1:2::3]:8448", "xn--e1afmkfd.example", "A-b.C",
+];
+
+const BAD_SERVERS: &[&str] = &["", "a b", "[::g]", "a.example:", "a.example:99999", "exa_mple", "[::1", "é.example"];
+
+const TOP_EXTRA: &[&str] = &[
+    "room_id", "state_key", "depth", "prev_events", "auth_events", "origin_server_ts", "origin", "membership",
+    "prev_state", "redacts", "age_ts", "prev_content", "replaces_state", "zz.fresh",
+];
+
+const CONTENT_KEYS: &[&str] = &[
+    "displayname", "reason", "creator", "m.federate", "room_version", "predecessor", "join_rule", "allow", "ban",
+    "events", "events_default", "kick", "redact", "state_default", "users", "users_default", "invite",
+    "history_visibility", "redacts", "aliases", "deny", "body", "msgtype", "topic", "zz.fresh",
+];
+
+fn pick_server(rng: &mut Rng, bad_ok: bool) -> String {
+    if bad_ok && rng.chance(1, 12) {
+        (*rng.pick(BAD_SERVERS)).to_owned()
+    } else {
+        (*rng.pick(SERVERS)).to_owned()
+    }
+}
+
+fn localpart(rng: &mut Rng, bad_ok: bool) -> String {
+    if bad_ok && rng.chance(1, 15) {
+        (*rng.pick(&["", "a\u{0}b", "é", "A B"])).to_owned()
+    } else {
+        (*rng.pick(&["alice", "bob", "a.b_c=d-e/f", "1", "Old-Style"])).to_owned()
+    }
+}
+
+struct GenEv {
+    ev: serde_json::Map<String, Value>,
+}
+
+/// A mostly well-formed event of the given version; `bad_ok` lets identifiers and shapes go wrong.
+fn gen_event(rng: &mut Rng, v: u32, bad_ok: bool) -> GenEv {
+    let mut ev = serde_json::Map::new();
+    let ty = *rng.pick(TYPES);
+    match if bad_ok { rng.below(30) } else { 5 } {
+        0 => {}
+        1 => {
+            ev.insert("type".into(), json!(7));
+        }
+        _ => {
+            ev.insert("type".into(), json!(ty));
+        }
+    }
+    let sender_srv = pick_server(rng, bad_ok);
+    match if bad_ok { rng.below(30) } else { 5 } {
+        0 => {}
+        1 => {
+            ev.insert("sender".into(), json!(["@a:b"]));
+        }
+        2 => {
+            ev.insert("sender".into(), json!(format!("alice:{sender_srv}")));
+        }
+        3 => {
+            ev.insert("sender".into(), json!("@alice"));
+        }
+        _ => {
+            ev.insert("sender".into(), json!(format!("@{}:{sender_srv}", localpart(rng, bad_ok))));
+        }
+    }
+    // event_id: v1/v2 style with a server, v3+ style without, sometimes the wrong style or absent
+    let style = rng.below(10);
+    let want_v1 = if v <= 2 { style < 8 } else { style < 2 };
+    if want_v1 {
+        let srv = if rng.chance(2, 3) { sender_srv.clone() } else { pick_server(rng, bad_ok) };
+        ev.insert("event_id".into(), json!(format!("$evt{}:{srv}", rng.below(100))));
+    } else if style < 9 {
+        ev.insert("event_id".into(), json!("$Rqnc-F-dvnEYJTyHq_iKxU2bZ1CI92-kuZq3a5lr5Zg"));
+    } else if bad_ok && rng.chance(1, 2) {
+        ev.insert("event_id".into(), json!(5));
+    }
+    for k in TOP_EXTRA {
+        if rng.chance(1, 3) {
+            ev.insert((*k).to_owned(), gen_canonical_value(rng, 2));
+        }
+    }
+    if rng.chance(1, 3) {
+        ev.insert("unsigned".into(), json!({"age": rng.range(0, 9999)}));
+    }
+    // content
+    let mut c = serde_json::Map::new();
+    for k in CONTENT_KEYS {
+        if rng.chance(1, 5) {
+            c.insert((*k).to_owned(), gen_canonical_value(rng, 2));
+        }
+    }
+    if ty == "m.room.member" || rng.chance(1, 10) {
+        match if bad_ok { rng.below(20) } else { 5 } {
+            0 => {}
+            1 => {
+                c.insert("membership".into(), json!(1));
+            }
+            _ => {
+                c.insert("membership".into(), json!(*rng.pick(&["join", "invite", "invite", "leave", "ban", "knock"])));
+            }
+        }
+        if rng.chance(1, 3) {
+            let tpi = match if bad_ok { rng.below(12) } else { 5 } {
+                0 => json!("not an object"),
+                _ => match rng.below(3) {
+                    0 => json!({}),
+                    1 => json!({"display_name": "n"}),
+                    _ => json!({"display_name": "n", "signed": {"mxid": "@c:d", "token": "t", "signatures": {}}}),
+                },
+            };
+            c.insert("third_party_invite".into(), tpi);
+        }
+        if rng.chance(1, 3) {
+            let srv = if rng.chance(1, 3) { sender_srv.clone() } else { pick_server(rng, bad_ok) };
+            let a = match if bad_ok { rng.below(15) } else { 5 } {
+                0 => json!(17),
+                1 => json!("@nocolon"),
+                _ => json!(format!("@{}:{srv}", localpart(rng, bad_ok))),
+            };
+            c.insert("join_authorised_via_users_server".into(), a);
+        }
+    }
+    match if bad_ok { rng.below(25) } else { 5 } {
+        0 => {}
+        1 => {
+            ev.insert("content".into(), json!([1]));
+        }
+        _ => {
+            ev.insert("content".into(), Value::Object(c));
+        }
+    }
+    GenEv { ev }
+}
+
+struct Signer {
+    entity: String,
+    version: String,
+    seed: Vec<u8>,
+}
+
+fn new_signer(rng: &mut Rng, entity: &str) -> Signer {
+    Signer {
+        entity: entity.to_owned(),
+        version: (*rng.pick(&["1", "1", "a_b", "auto", "é", ""])).to_owned(),
+        seed: (0..32).map(|_| (rng.next() & 0xff) as u8).collect(),
+    }
+}
+
+fn keymap_of(signers: &[Signer]) -> PublicKeyMap {
+    let mut m = PublicKeyMap::new();
+    for s in signers {
+        let kp = key_pair(&s.seed, &s.version);
+        m.entry(s.entity.clone())
+            .or_default()
+            .insert(format!("ed25519:{}", s.version), Base64::new(kp.public_key().to_vec()));
+    }
+    m
+}
+
+fn sign_req(v: u32, s: &Signer, ev: &Obj, cls: &str) -> Req {
+    Req::new(
+        format!(
+            "c03.sign {v} {} {} {} {} {}",
+            gtable_toks(&s.seed, ev, &rules(v)),
+            stok(&s.entity),
+            stok(&s.version),
+            htok(&s.seed),
+            cj_obj_toks(ev)
+        ),
+        cls,
+    )
+}
+
+fn verify_req(v: u32, tag: &str, keys: &PublicKeyMap, ev: &Obj, cls: &str) -> Req {
+    Req::new(
+        format!(
+            "c03.verify {v} {tag} {} {} {} {}",
+            x6_toks(ev),
+            vtable_toks(keys, ev, &rules(v)),
+            keymap_toks(keys),
+            cj_obj_toks(ev)
+        ),
+        cls,
+    )
+}
+
+fn servers_req(v: u32, ev: &Obj, cls: &str) -> Req {
+    Req::new(format!("c03.servers {v} {} {}", x6_toks(ev), cj_obj_toks(ev)), cls)
+}
+
+/// The bytes that are signed / the bytes that are content-hashed, through ruma's public functions.
+fn redacted_bytes(ev: &Obj, r: &RoomVersionRules) -> Option<String> {
+    canonical_json(&redact(ev.clone(), &r.redaction, None).ok()?).ok()
+}
+
+fn hashed_bytes(ev: &Obj) -> String {
+    let mut o = ev.clone();
+    o.remove("hashes");
+    o.remove("signatures");
+    o.remove("unsigned");
+    serde_json::to_string(&o).unwrap()
+}
+
+/// One random single-field mutation outside `unsigned` / `signatures` / `hashes`; returns a label of
+/// the place touched.
+fn mutate(rng: &mut Rng, ev: &mut Obj) -> String {
+    let in_content = rng.chance(1, 2) && matches!(ev.get("content"), Some(Val::Object(_)));
+    let fresh = to_val(gen_canonical_value(rng, 1));
+    if in_content {
+        let Some(Val::Object(c)) = ev.get_mut("content") else { unreachable!() };
+        let keys: Vec<String> = c.keys().cloned().collect();
+        match rng.below(3) {
+            0 if !keys.is_empty() => {
+                let k = rng.pick(&keys).clone();
+                c.remove(&k);
+                format!("content.{k}")
+            }
+            1 if !keys.is_empty() => {
+                let k = rng.pick(&keys).clone();
+                let old = c.get(&k).cloned().unwrap();
+                c.insert(k.clone(), Val::Array(vec![old]));
+                format!("content.{k}")
+            }
+            _ => {
+                let k = (*rng.pick(CONTENT_KEYS)).to_owned();
+                let newv = if c.get(&k) == Some(&fresh) { Val::Array(vec![fresh]) } else { fresh };
+                c.insert(k.clone(), newv);
+                format!("content.{k}")
+            }
+        }
+    } else {
+        let keys: Vec<String> =
+            ev.keys().filter(|k| !["unsigned", "signatures", "hashes", "content"].contains(&k.as_str())).cloned().collect();
+        match rng.below(3) {
+            0 if !keys.is_empty() => {
+                let k = rng.pick(&keys).clone();
+                ev.remove(&k);
+                k
+            }
+            1 if !keys.is_empty() => {
+                let k = rng.pick(&keys).clone();
+                let old = ev.get(&k).cloned().unwrap();
+                ev.insert(k.clone(), Val::Array(vec![old]));
+                k
+            }
+            _ => {
+                let k = (*rng.pick(TOP_EXTRA)).to_owned();
+                let newv = if ev.get(&k) == Some(&fresh) { Val::Array(vec![fresh]) } else { fresh };
+                ev.insert(k.clone(), newv);
+                k
+            }
+        }
+    }
+}
+
+/// Places whose change alters *which* servers must sign (so "kept change ⇒ failure" is not what the
+/// property promises for them: an invite turned into a third-party invite needs no signature).
+fn selects_servers(place: &str) -> bool {
+    matches!(place, "type" | "content.membership" | "content.third_party_invite")
+}
+
+fn gen_verify_family(rng: &mut Rng, out: &mut Vec<Req>) {
+    let v = rng.range(1, 11) as u32;
+    let r = rules(v);
+    let g = gen_event(rng, v, false);
+    let base = to_obj(Value::Object(g.ev));
+    let Some(required) = spec_servers(v, &base) else { return };
+    // signers: the required servers, sometimes one more
+    let mut signers: Vec<Signer> = required.iter().map(|s| new_signer(rng, s)).collect();
+    let extra = rng.chance(1, 3);
+    if extra || signers.is_empty() {
+        signers.push(new_signer(rng, "extra.example"));
+    }
+    rng.shuffle(&mut signers);
+    let keys = keymap_of(&signers);
+    let mut ev = base.clone();
+    for (i, s) in signers.iter().enumerate() {
+        // every signing step is itself a correspondence case for the first few
+        if i < 2 && rng.chance(1, 3) {
+            out.push(sign_req(v, s, &ev, "sign.chain"));
+        }
+        if hash_and_sign_event(&s.entity, &key_pair(&s.seed, &s.version), &mut ev, &r.redaction).is_err() {
+            return;
+        }
+    }
+    out.push(verify_req(v, "signed", &keys, &ev, "verify.signed"));
+    // redacted copy
+    if let Ok(red) = redact(ev.clone(), &r.redaction, None) {
+        // the redacted copy of a third-party invite can lose the marker that exempts the sender's server
+        let tag = match spec_servers(v, &red) {
+            Some(need) if need.iter().all(|s| signers.iter().any(|x| &x.entity == s)) => "redacted",
+            _ => "free",
+        };
+        out.push(verify_req(v, tag, &keys, &red, &format!("verify.{tag}-copy")));
+    }
+    // `unsigned` only
+    {
+        let mut e2 = ev.clone();
+        match rng.below(3) {
+            0 => {
+                e2.remove("unsigned");
+            }
+            1 => {
+                e2.insert("unsigned".into(), to_val(gen_canonical_value(rng, 2)));
+            }
+            _ => {
+                e2.insert("unsigned".into(), to_val(json!({"age": 1, "redacted_because": {"type": "m.room.redaction"}})));
+            }
+        }
+        out.push(verify_req(v, "unsigned-mut", &keys, &e2, "verify.unsigned-mut"));
+    }
+    // single-field mutations, classified with the real redact()
+    for _ in 0..3 {
+        let mut e2 = ev.clone();
+        let place = mutate(rng, &mut e2);
+        let same_signed = redacted_bytes(&e2, &r) == redacted_bytes(&ev, &r);
+        let same_hashed = hashed_bytes(&e2) == hashed_bytes(&ev);
+        let servers_same = spec_servers(v, &e2) == spec_servers(v, &ev);
+        let tag = if selects_servers(&place) || !servers_same {
+            "free"
+        } else if same_signed && !same_hashed {
+            "strip-mut"
+        } else if !same_signed {
+            "kept-mut"
+        } else {
+            "free"
+        };
+        out.push(verify_req(v, tag, &keys, &e2, &format!("verify.{tag}")));
+    }
+    // signature set manipulations
+    if let Some(req_srv) = required.first() {
+        let mut e2 = ev.clone();
+        if let Some(Val::Object(s)) = e2.get_mut("signatures") {
+            s.remove(req_srv);
+        }
+        out.push(verify_req(v, "sig-required-removed", &keys, &e2, "verify.sig-required-removed"));
+        let mut e3 = ev.clone();
+        if let Some(Val::Object(s)) = e3.get_mut("signatures") {
+            if let Some(Val::Object(set)) = s.get_mut(req_srv) {
+                for (_, sv) in set.iter_mut() {
+                    if let Val::String(b) = sv {
+                        let mut raw = Base64::<Standard>::parse(&*b).unwrap().into_inner();
+                        let i = rng.below(raw.len());
+                        raw[i] ^= 1 << rng.below(8);
+                        *b = Base64::<Standard>::new(raw).encode();
+                    }
+                }
+            }
+        }
+        out.push(verify_req(v, "sig-required-corrupt", &keys, &e3, "verify.sig-required-corrupt"));
+        let mut k2 = keys.clone();
+        k2.remove(req_srv);
+        out.push(verify_req(v, "key-missing", &k2, &ev, "verify.key-missing"));
+        let mut k3 = keys.clone();
+        if let Some(set) = k3.get_mut(req_srv) {
+            for (_, pk) in set.iter_mut() {
+                *pk = Base64::new(key_pair(&seed_for("someone else"), "1").public_key().to_vec());
+            }
+        }
+        out.push(verify_req(v, "key-wrong", &k3, &ev, "verify.key-wrong"));
+    }
+    if extra && !required.is_empty() && !required.iter().any(|s| s == "extra.example") {
+        let mut e2 = ev.clone();
+        if let Some(Val::Object(s)) = e2.get_mut("signatures") {
+            s.remove("extra.example");
+        }
+        out.push(verify_req(v, "sig-extra-removed", &keys, &e2, "verify.sig-extra-removed"));
+        // a corrupt signature of a server nobody asks for is never looked at
+        let mut e3 = ev.clone();
+        if let Some(Val::Object(s)) = e3.get_mut("signatures") {
+            s.insert("extra.example".into(), to_val(json!({"ed25519:1": "AAAA"})));
+        }
+        out.push(verify_req(v, "sig-extra-removed", &keys, &e3, "verify.sig-extra-junk"));
+    }
+    // stored-hash variants, signed by hand the way hash_and_sign_event does it
+    if rng.chance(1, 2) {
+        let good = content_hash(&base).map(|h| h.encode()).unwrap_or_default();
+        let variant = match rng.below(7) {
+            0 => json!(format!("{good}=")),
+            1 => json!(format!("{good}==")),
+            2 => {
+                // same 32 bytes, different trailing bits in the last character
+                let mut s = good.clone();
+                let last = s.pop().unwrap_or('A');
+                const A: &[u8; 64] = b"ABCDEFGHIJKLMNOPQRSTUVWXYZabcdefghijklmnopqrstuvwxyz0123456789+/";
+                let idx = A.iter().position(|c| *c as char == last).unwrap_or(0);
+                s.push(A[(idx & !3) | ((idx + 1) & 3)] as char);
+                json!(s)
+            }
+            3 => json!(good.replace('+', "-").replace('/', "_")),
+            4 => json!("not base64 !"),
+            5 => json!(17),
+            _ => json!(good[..good.len().saturating_sub(2)].to_owned()),
+        };
+        let mut e2 = base.clone();
+        let hashes_val = match rng.below(8) {
+            0 => json!("str"),
+            1 => json!({}),
+            _ => json!({"sha256": variant}),
+        };
+        e2.insert("hashes".into(), to_val(hashes_val));
+        if let Ok(mut red) = redact(e2.clone(), &r.redaction, None) {
+            let mut ok = true;
+            for s in &signers {
+                ok &= sign_json(&s.entity, &key_pair(&s.seed, &s.version), &mut red).is_ok();
+            }
+            if ok {
+                if let Some(sigs) = red.get("signatures") {
+                    e2.insert("signatures".into(), sigs.clone());
+                }
+                out.push(verify_req(v, "free", &keys, &e2, "verify.hash-variant"));
+            }
+        }
+    }
+}
+
+fn gen_malformed_verify(rng: &mut Rng, out: &mut Vec<Req>) {
+    let v = rng.range(1, 11) as u32;
+    let r = rules(v);
+    let g = gen_event(rng, v, true);
+    let mut ev = to_obj(Value::Object(g.ev));
+    let cands: Vec<String> = id_strings(&ev).iter().filter_map(|s| after_colon(s).map(str::to_owned)).collect();
+    let signers: Vec<Signer> = cands.iter().map(|s| new_signer(rng, s)).collect();
+    let keys = keymap_of(&signers);
+    for s in &signers {
+        let _ = hash_and_sign_event(&s.entity, &key_pair(&s.seed, &s.version), &mut ev, &r.redaction);
+    }
+    match rng.below(8) {
+        0 => {
+            ev.remove("hashes");
+        }
+        1 => {
+            ev.insert("hashes".into(), to_val(json!({"sha256": 5})));
+        }
+        2 => {
+            ev.insert("signatures".into(), to_val(json!("x")));
+        }
+        3 => {
+            ev.remove("signatures");
+        }
+        4 => {
+            if let Some(Val::Object(s)) = ev.get_mut("signatures") {
+                for (_, set) in s.iter_mut() {
+                    *set = to_val(json!(["not a set"]));
+                }
+            }
+        }
+        _ => {}
+    }
+    out.push(verify_req(v, "free", &keys, &ev, "verify.malformed"));
+}
+
+fn gen_sign_case(rng: &mut Rng, out: &mut Vec<Req>) {
+    let v = rng.range(1, 11) as u32;
+    let g = gen_event(rng, v, true);
+    let mut ev = to_obj(Value::Object(g.ev));
+    let entity = match spec_servers(v, &ev).and_then(|s| s.first().cloned()) {
+        Some(s) if rng.chance(3, 4) => s,
+        _ => pick_server(rng, false),
+    };
+    match rng.below(14) {
+        0 => {
+            ev.insert("hashes".into(), to_val(json!("not an object")));
+        }
+        1 => {
+            ev.insert("hashes".into(), to_val(json!({"sha256": "old", "md5": "kept"})));
+        }
+        2 => {
+            ev.insert("signatures".into(), to_val(json!([1])));
+        }
+        3 => {
+            ev.insert("signatures".into(), to_val(json!({entity.clone(): "not a set"})));
+        }
+        4 => {
+            ev.insert("signatures".into(), to_val(json!({"other.example": {"ed25519:9": "c2ln"}, entity.clone(): {"ed25519:old": "b2xk"}})));
+        }
+        _ => {}
+    }
+    let s = new_signer(rng, &entity);
+    out.push(sign_req(v, &s, &ev, "sign"));
+}
+
+fn gen_servers_case(rng: &mut Rng, out: &mut Vec<Req>, bad_ok: bool) {
+    let v = rng.range(1, 11) as u32;
+    let mut g = gen_event(rng, v, bad_ok);
+    g.ev.remove("unsigned");
+    let ev = to_obj(Value::Object(g.ev));
+    out.push(servers_req(v, &ev, if bad_ok { "servers.any" } else { "servers.wf" }));
+}
+
+/// Every version with the event shapes the three clauses speak about.
+fn fixed_servers_cases(out: &mut Vec<Req>) {
+    for v in 1..=11u32 {
+        let eid = json!("$e1:b.example");
+        let shapes = [
+            json!({"type": "m.room.message", "sender": "@a:a.example", "event_id": eid, "content": {"body": "x"}}),
+            json!({"type": "m.room.member", "sender": "@a:a.example", "event_id": eid, "state_key": "@c:c.example",
+                   "content": {"membership": "invite"}}),
+            json!({"type": "m.room.member", "sender": "@a:a.example", "event_id": eid, "state_key": "@c:c.example",
+                   "content": {"membership": "invite", "third_party_invite": {"signed": {"mxid": "@c:c.example"}}}}),
+            json!({"type": "m.room.member", "sender": "@a:a.example", "event_id": eid, "state_key": "@c:c.example",
+                   "content": {"membership": "invite", "third_party_invite": {}}}),
+            json!({"type": "m.room.member", "sender": "@a:a.example", "event_id": eid, "state_key": "@a:a.example",
+                   "content": {"membership": "join", "third_party_invite": {"signed": {}}}}),
+            json!({"type": "m.room.member", "sender": "@a:a.example", "event_id": eid, "state_key": "@a:a.example",
+                   "content": {"membership": "join", "join_authorised_via_users_server": "@d:d.example"}}),
+            json!({"type": "m.room.message", "sender": "@a:a.example", "event_id": eid,
+                   "content": {"join_authorised_via_users_server": "@d:d.example"}}),
+            json!({"type": "m.room.member", "sender": "@a:a.example", "event_id": "$nohost", "state_key": "@a:a.example",
+                   "content": {"membership": "join"}}),
+            json!({"type": "m.room.member", "sender": "@a:a.example", "state_key": "@a:a.example",
+                   "content": {"membership": "leave"}}),
+            json!({"type": "x.third_party_invite", "sender": "@a:a.example", "event_id": eid,
+                   "content": {"membership": "invite", "third_party_invite": {"signed": {}}}}),
+        ];
+        for s in shapes {
+            out.push(servers_req(v, &to_obj(s), "servers.fixed"));
+        }
+    }
+}
+
+fn gen(rng: &mut Rng, n: usize, _tier: &str) -> Vec<Req> {
+    let mut v = Vec::new();
+    for ver in 1..=11u32 {
+        v.push(Req::new(format!("c03.sigrules {ver}"), "sigrules"));
+    }
+    fixed_servers_cases(&mut v);
+    while v.len() < n {
+        match rng.below(10) {
+            0 => gen_servers_case(rng, &mut v, false),
+            1 => gen_servers_case(rng, &mut v, true),
+            2 => gen_sign_case(rng, &mut v),
+            3 => gen_malformed_verify(rng, &mut v),
+            _ => gen_verify_family(rng, &mut v),
+        }
+    }
+    v
+}
+
+fn main() {
+    h_lib::std_main(Some(&extract), &gen, &run);
+}
